@@ -165,7 +165,11 @@ func DecodeSencSR(hdr BoxHeader, startPos uint64, sr bits.SliceReader) (Box, err
 	flags := versionAndFlags & flagsMask
 	sampleCount := sr.ReadUint32()
 
-	if flags&UseSubSampleEncryption != 0 && ((hdr.Size - 16) < 2*uint64(sampleCount)) {
+	nrDataBytes := hdr.payloadLen() - 8 // after version, flags and sample count; the header may be 16 bytes long
+	if nrDataBytes < 0 {
+		return nil, fmt.Errorf("senc: box payload size %d less than 8", hdr.payloadLen())
+	}
+	if flags&UseSubSampleEncryption != 0 && (uint64(nrDataBytes) < 2*uint64(sampleCount)) {
 		return nil, fmt.Errorf("box size %d too small for %d samples and subSampleEncryption",
 			hdr.Size, sampleCount)
 	}
